@@ -406,4 +406,28 @@ CHECKS = {
             {"name": "loss-all-k", "test": "TestLossAllK", "quick": None, "thorough": None, "shards": 16, "enum": True},
         ],
     },
+    "C14": {
+        "pkg": "c14",
+        "level": "exploration",
+        "level_text": ("The full configuration grid {system (/usr/bin/ssh through a wrapper that records argv), standard (crypto/ssh)} x "
+                       "{strict (default), disabled} x {known-hosts has the server key, has another key for the same host:port, is "
+                       "empty, not given} x {password, key, both} is run once (48 cells) and further cases with generated users, "
+                       "passwords and config-file choice are drawn, each against a fresh in-process x/crypto/ssh server on loopback with "
+                       "a fresh ed25519 host key and client key. Oracle: Open (including the in-channel phase for the system transport "
+                       "and one command afterwards) succeeds exactly when checking is disabled or the file contains the server key; the "
+                       "server saw the configured user, the configured public key when one is configured, the password only inside the "
+                       "authentication exchange; the recorded argv has host, -p port, -l user, StrictHostKeyChecking=yes|no, "
+                       "UserKnownHostsFile, -F config or /dev/null, -i key iff configured, and no argument containing the password."),
+        "level_note": ("Trusted: the in-process SSH server (sim.SSHServer), OpenSSH 9.2 as the system client. Real sockets/processes on the "
+                       "wall clock: an open slower than 9 s is counted infeasible, never a violation."),
+        "technique": "exhaustive configuration grid + property-based sampling (rapid) against an in-process SSH server and an argv-recording ssh wrapper",
+        "rule": ("grid: 48 cells; drawn: transport x strict x known-hosts x auth x user x password x config. Non-trivial: strict with a "
+                 "non-matching/empty/missing file, or key authentication. Distinct = sha1(case)."),
+        "assumptions": ["loopback TCP and /usr/bin/ssh are available (otherwise system-transport cases are counted infeasible)"],
+        "exhaustive_quick": False,
+        "subs": [
+            {"name": "grid", "test": "TestGrid", "quick": None, "thorough": None, "shards": 4, "enum": True},
+            {"name": "drawn", "test": "TestDrawn", "quick": 40, "thorough": 150, "shards": 16},
+        ],
+    },
 }
